@@ -242,3 +242,39 @@ func J(v any) string {
 	}
 	return string(b)
 }
+
+// HoldWriter passes writes through until Hold is called; from then on it collects them and Flush sends everything
+// collected as one segment (a TLS client's last record and its close_notify leaving in one packet, as TCP does).
+type HoldWriter struct {
+	net.Conn
+	mu   sync.Mutex
+	hold bool
+	buf  []byte
+}
+
+func (h *HoldWriter) Write(p []byte) (int, error) {
+	h.mu.Lock()
+	if h.hold {
+		h.buf = append(h.buf, p...)
+		h.mu.Unlock()
+		return len(p), nil
+	}
+	h.mu.Unlock()
+	return h.Conn.Write(p)
+}
+
+// Hold starts collecting.
+func (h *HoldWriter) Hold() { h.mu.Lock(); h.hold = true; h.mu.Unlock() }
+
+// Flush sends what was collected in one write and stops collecting.
+func (h *HoldWriter) Flush() error {
+	h.mu.Lock()
+	b := h.buf
+	h.buf, h.hold = nil, false
+	h.mu.Unlock()
+	if len(b) == 0 {
+		return nil
+	}
+	_, err := h.Conn.Write(b)
+	return err
+}
